@@ -15,7 +15,7 @@ import tempfile
 from . import common
 from .common import Report, run_tlc, tlc_emit_json, tlc_must_pass, SPEC, REPO
 
-CH = {'a': 'fr', 'b': 'x_', 'c': 'Q9', '*': '*'}
+CH = {'a': 'fr', 'b': 'x_', 'c': 'q9', '*': '*'}   # lower case: the OpenTelemetry SDK lower-cases instrument names
 KINDS = ('counter', 'histogram', 'gauge', 'updown')
 
 
